@@ -213,7 +213,7 @@ func buildC09(tier string, seed int64) *Family {
 		return in
 	}
 	return &Family{
-		Instances: dedupInst(insts),
+		Instances: withValueReuse(dedupInst(insts), 2),
 		Canaries: []*vm.Instance{
 			can("starts-with('#S1', '#S2')", "ends-with('#S1', '#S2')"),
 			can("substring-before('#S1', '#S2')", "substring-after('#S1', '#S2')"),
